@@ -57,6 +57,8 @@ pub struct Phase {
     pub alpha_len: usize,
     pub nkeys: u16,
     pub fault_props: Props,
+    /// the universe this phase's operations are interpreted in
+    pub u: Universe,
 }
 
 pub fn show_history(u: &Universe, cfg: &Config, hist: &[Op], op: Option<&Op>) -> Vec<String> {
@@ -257,7 +259,7 @@ pub fn cmd_explore(opt: &HashMap<String, String>) -> i32 {
         };
         let mut result = ex.run(&eo);
         novel = std::mem::take(&mut result.novel);
-        phases.push(Phase { name: format!("closure U{}", nkeys), result, roots: roots.clone(), alpha_len, nkeys, fault_props: 0 });
+        phases.push(Phase { name: format!("closure U{}", nkeys), result, roots: roots.clone(), alpha_len, nkeys, fault_props: 0, u: u.clone() });
     }
     // continuation after a fault: every state reached by a fault that is not a
     // state of the closure is explored for d_after further operations
@@ -294,7 +296,35 @@ pub fn cmd_explore(opt: &HashMap<String, String>) -> i32 {
             heavy_depth_limit: None,
         };
         let result = ex.run(&eo);
-        phases.push(Phase { name: format!("continuation after fault (depth {})", d_after), result, roots: roots2, alpha_len, nkeys, fault_props: fp });
+        phases.push(Phase { name: format!("continuation after fault (depth {})", d_after), result, roots: roots2, alpha_len, nkeys, fault_props: fp, u: u.clone() });
+    }
+
+    // quick tier: a fourth key under two well-spread hashers (the full U4 closure is the thorough tier)
+    let u4 = Universe::with_richness(4, false, false);
+    if !thorough && !fault_only && nkeys == 3 && !opt.contains_key("no-u4") && !verdict_reached(&phases) {
+        let roots4 = vec![Root { cfg: Config { hk: HK::Spread, cap: None, limit: u4.limits[u4.limits.len() - 2] }, prefix: vec![], label: "U4 Spread".into() }];
+        let gb4 = growth_bound(&u4, &[None, Some(3)]);
+        let ctx4 = Ctx { u: &u4, sel, growth_bound: Some(gb4), fault_props: 0, extra_ids: vec![], known_rules: known_rules.clone() };
+        let alpha = alphabet(&u4);
+        let alpha_len = alpha.len();
+        let mut ex = Explorer::new(&ctx4, roots4.clone(), alpha);
+        let so = StateOpts { exhaustive_pat_len, owning: false, clone, clone_product: 0, trap };
+        let eo = ExploreOpts {
+            threads,
+            max_depth,
+            max_states: 30_000_000,
+            wall_cap_s: wall_cap,
+            state_opts: Some(so),
+            transitions: true,
+            max_violations: 200,
+            extra: None,
+            phase: 2,
+            skips: skips.clone(),
+            depth_cap: depth_caps.get(&2).copied(),
+            heavy_depth_limit: None,
+        };
+        let result = ex.run(&eo);
+        phases.push(Phase { name: "closure U4 (Spread, four value sizes, one size per key)".into(), result, roots: roots4, alpha_len, nkeys: 4, fault_props: 0, u: u4.clone() });
     }
 
     // seeded, depth-bounded exploration from states the closure cannot reach
@@ -354,7 +384,39 @@ pub fn cmd_explore(opt: &HashMap<String, String>) -> i32 {
             let alpha_len = sd.alpha.len();
             let mut ex = Explorer::new(&ctx_s, vec![sd.root.clone()], sd.alpha.clone());
             let result = ex.run(&eo);
-            phases.push(Phase { name: format!("seed {}", sd.root.label), result, roots: vec![sd.root.clone()], alpha_len, nkeys, fault_props: 0 });
+            phases.push(Phase { name: format!("seed {}", sd.root.label), result, roots: vec![sd.root.clone()], alpha_len, nkeys, fault_props: 0, u: u.clone() });
+        }
+    }
+
+    // ladder: every fill level n up to a bound, one step over a generic alphabet
+    if !no_seeds && !fault_only && !opt.contains_key("no-ladder") && !verdict_reached(&phases) {
+        let ladders: Vec<(HK, usize)> = if thorough { vec![(HK::Spread, 1200), (HK::Sip, 600), (HK::Const, 128), (HK::SameTag, 600), (HK::SamePos, 64)] } else { vec![(HK::Spread, 300), (HK::Sip, 130), (HK::Const, 48)] };
+        for (li, (hk, n_max)) in ladders.into_iter().enumerate() {
+            if verdict_reached(&phases) {
+                break;
+            }
+            let (lroots, lalpha) = ladder(&u, hk, n_max);
+            let ctx_l = Ctx { u: &u, sel, growth_bound: None, fault_props: 0, extra_ids: vec![], known_rules: known_rules.clone() };
+            let so = StateOpts { exhaustive_pat_len: 6, owning, clone, clone_product: 0, trap };
+            let phase_no = 500 + li as u64;
+            let eo = ExploreOpts {
+                threads,
+                max_depth: 1,
+                max_states: 30_000_000,
+                wall_cap_s: wall_cap,
+                state_opts: Some(so),
+                transitions: true,
+                max_violations: 200,
+                extra: None,
+                phase: phase_no,
+                skips: skips.clone(),
+                depth_cap: depth_caps.get(&phase_no).copied(),
+                heavy_depth_limit: Some(0),
+            };
+            let alpha_len = lalpha.len();
+            let mut ex = Explorer::new(&ctx_l, lroots.clone(), lalpha);
+            let result = ex.run(&eo);
+            phases.push(Phase { name: format!("ladder: n = 0..={} fresh insertions ({}), natural and requested capacity, one step", n_max, hk.name()), result, roots: lroots, alpha_len, nkeys, fault_props: 0, u: u.clone() });
         }
     }
 
@@ -389,7 +451,7 @@ pub fn cmd_explore(opt: &HashMap<String, String>) -> i32 {
             fault_states: 0,
             known: Default::default(),
         };
-        phases.push(Phase { name: format!("type variants: all op sequences <= {depth} x terminal actions x patterns, key-only / value-only drop glue"), result, roots: vec![root], alpha_len: 13, nkeys, fault_props: 0 });
+        phases.push(Phase { name: format!("type variants: all op sequences <= {depth} x terminal actions x patterns, key-only / value-only drop glue"), result, roots: vec![root], alpha_len: 13, nkeys, fault_props: 0, u: u.clone() });
     }
 
     // C13: parametric families (the quantifier is over a number)
@@ -427,7 +489,7 @@ pub fn cmd_explore(opt: &HashMap<String, String>) -> i32 {
                 fault_states: 0,
                 known: Default::default(),
             };
-            phases.push(Phase { name: format!("family: {name}"), result, roots: vec![root], alpha_len: 0, nkeys, fault_props: 0 });
+            phases.push(Phase { name: format!("family: {name}"), result, roots: vec![root], alpha_len: 0, nkeys, fault_props: 0, u: u.clone() });
         }
     }
 
@@ -464,7 +526,7 @@ pub fn cmd_explore(opt: &HashMap<String, String>) -> i32 {
                 fault_states: 0,
                 known: Default::default(),
             };
-            phases.push(Phase { name: format!("str-keyed closure ({} keys, {})", nk, hk.name()), result, roots: vec![root], alpha_len: 0, nkeys, fault_props: 0 });
+            phases.push(Phase { name: format!("str-keyed closure ({} keys, {})", nk, hk.name()), result, roots: vec![root], alpha_len: 0, nkeys, fault_props: 0, u: u.clone() });
         }
     }
 
@@ -520,7 +582,7 @@ pub fn finish(
             exhaustive = false;
         }
         for (root, hist) in r.samples.iter().take(if ph.name.starts_with("seed") { 1 } else { 4 }) {
-            let mut lines = show_history(u, &ph.roots[*root].cfg, hist, None);
+            let mut lines = show_history(&ph.u, &ph.roots[*root].cfg, hist, None);
             if lines.len() > 24 {
                 let n = lines.len();
                 let mut short: Vec<String> = lines[..8].to_vec();
@@ -574,10 +636,10 @@ pub fn finish(
                 let cnt = printed.entry((pname.clone(), vr.rule)).or_insert(0);
                 *cnt += 1;
                 if *cnt <= 2 {
-                    let path = write_replay(replay_dir, &pname, u, ph.nkeys, big, &ph.roots[vr.root], vr, ph.fault_props);
+                    let path = write_replay(replay_dir, &pname, &ph.u, ph.nkeys, big, &ph.roots[vr.root], vr, ph.fault_props);
                     lines.push(format!("VIOLATION property={} replay={}", pname, path));
                     lines.push(format!("  rule {}: {}", vr.rule, vr.detail));
-                    for l in show_history(u, &ph.roots[vr.root].cfg, &vr.hist, vr.op.as_ref()) {
+                    for l in show_history(&ph.u, &ph.roots[vr.root].cfg, &vr.hist, vr.op.as_ref()) {
                         lines.push(format!("    {l}"));
                     }
                 }
